@@ -38,6 +38,7 @@ type verdict struct {
 	fuzz        bool
 	breakers    int
 	decoys      int
+	truncKinds  []string
 	truncCands  []time.Time // expiry candidates of truncated UDP answers / damaged messages (they may only shorten a lifetime)
 	damaged     bool
 }
@@ -78,6 +79,7 @@ func judge(l *lookupRec) *verdict {
 		if s.R.FamID != 0 && s.R.HeaderOK {
 			if s.R.WellFormed && s.R.Cand >= 0 {
 				v.truncCands = append(v.truncCands, addTTL(s.At, s.R.Cand))
+				v.truncKinds = append(v.truncKinds, "truncated UDP answer")
 			} else if !s.R.WellFormed {
 				v.damaged = true
 			}
@@ -152,6 +154,18 @@ type lifetime struct {
 	lo, hi   time.Time
 	noLower  bool
 	dontCare bool // lo != hi
+	// discarded names messages of this lookup that were NOT accepted (truncated UDP answer, damaged message with the
+	// lookup's ID) but carry TTLs that end later than hi, while an accepted answer is a negative one: if the entry
+	// then outlives hi, the TTL of a discarded message has replaced the negative caching time.
+	discarded []string
+}
+
+// expiredKind is the signature kind for "served from the cache after the lifetime ended".
+func (lt lifetime) expiredKind() (kind, extra string) {
+	if len(lt.discarded) > 0 {
+		return "negative_ttl_replaced_by_ttl_of_discarded_message", fmt.Sprintf(" (an accepted answer of that result is negative with an SOA TTL; a %s of the same lookup, which was not accepted, carries a longer TTL)", lt.discarded[0])
+	}
+	return "expired_entry_served_without_asking", ""
 }
 
 func expiryOf(v *verdict, m4, m6 []*sentRec, end time.Time, l *lookupRec) lifetime {
@@ -213,6 +227,22 @@ func expiryOf(v *verdict, m4, m6 []*sentRec, end time.Time, l *lookupRec) lifeti
 		lt.hi = lt.hi.Add(slack)
 	}
 	lt.dontCare = lt.noLower || !lt.lo.Equal(lt.hi)
+	negative := false
+	for _, s := range append(append([]*sentRec{}, m4...), m6...) {
+		if !s.R.Positive && s.R.Cand >= 0 && s.R.RCode != 2 && s.R.RCode != 5 && s.R.RCode != 1 && s.R.RCode != 4 {
+			negative = true
+		}
+	}
+	if negative {
+		for k, c := range v.truncCands {
+			if c.After(lt.hi) {
+				lt.discarded = append(lt.discarded, v.truncKinds[k])
+			}
+		}
+		if v.damaged {
+			lt.discarded = append(lt.discarded, "damaged message (cut inside its answer section)")
+		}
+	}
 	return lt
 }
 
@@ -260,14 +290,14 @@ func (m *lruModel) touch(e *entry) {
 }
 
 // store inserts or replaces; a new name evicts the least recently used entry when the cache is full.
-func (m *lruModel) store(ne *entry) (evicted string) {
+func (m *lruModel) store(ne *entry) (evicted *entry) {
 	if e := m.find(ne.name); e != nil {
 		*e = *ne
 		m.touch(e)
-		return ""
+		return nil
 	}
 	if m.cap > 0 && len(m.order) >= m.cap {
-		evicted = m.order[0].name
+		evicted = m.order[0]
 		m.order = m.order[1:]
 	}
 	m.order = append(m.order, ne)
